@@ -145,27 +145,27 @@ Fixpoint death_ok_from (dead : list Z) (tr : list ev) : bool :=
   end.
 Definition death_ok (tr : list ev) : bool := death_ok_from [] tr.
 
-(* the killer named is the attacker of the last hit that damaged the unit (itself if none) *)
-Fixpoint killer_ok_from (last : list (Z * Z)) (cur : option (Z * Z)) (tr : list ev) : bool :=
+(* the killer named is the attacker of the last hit that damaged the unit (itself if none).
+   Events are logged when their emission completes, so the log line of an HP change may come after
+   what its listeners did; the markers VHPSeen / VDeathSeen are recorded when the content's listener
+   for the event starts, i.e. in emission order.  [hits]: stack of the hits in progress. *)
+Fixpoint killer_ok_from (last : list (Z * Z)) (hits : list (Z * Z)) (tr : list ev) : bool :=
   match tr with
   | [] => true
   | e :: r =>
       match e with
-      | VHitStart a d => killer_ok_from last (Some (a, d)) r
-      | VHPChange t o n =>
-          (* an HP change inside a hit on its defender that lowers HP is damage by that attacker *)
-          match cur with
-          | Some (a, d) => if (d =? t) && PrimFloat.ltb n o
-                           then killer_ok_from ((t, a) :: last) cur r else killer_ok_from last cur r
-          | None => killer_ok_from last cur r
+      | VHitStart a d => killer_ok_from last ((a, d) :: hits) r
+      | VHitEnd _ _ _ _ => killer_ok_from last (tl hits) r
+      | VHPSeen t true =>
+          (* an HP change by damage: the attacker of the innermost hit in progress *)
+          match hits with
+          | (a, _) :: _ => killer_ok_from ((t, a) :: last) hits r
+          | [] => killer_ok_from last hits r
           end
-      | VHitEnd _ _ _ _ => killer_ok_from last None r
       | VDeathSeen t k =>
-          (* the moment the death is announced to listeners (the TargetDeath log line itself is
-             written after they ran and may be preceded by what they did) *)
           let expect := match List.find (fun p => fst p =? t) last with Some p => snd p | None => t end in
-          (k =? expect) && killer_ok_from last cur r
-      | _ => killer_ok_from last cur r
+          (k =? expect) && killer_ok_from last hits r
+      | _ => killer_ok_from last hits r
       end
   end.
 
